@@ -1,9 +1,13 @@
 import Driver.CondOps
+import Driver.EncOps
 open Lean Driver
 
 def dispatch (op : String) (j : Json) : Except String Json :=
   match op with
   | "cond.parse" => condParse j
+  | "b64.case" => b64Case j
+  | "wide.case" => wideCase j
+  | "cidr.case" => cidrCase j
   | "ping" => pure (Json.mkObj [("pong", true)])
   | _ => throw s!"unknown op {op}"
 
